@@ -57,6 +57,73 @@ Definition file_calc (reset_first : bool) (st : list Z) (n : fnode) (chunking : 
   | _ => (None, st)
   end.
 
+(* ------------------------------------------------------------------------------------------------
+   The statement-level IR into which translator-c20/cmd/hash2coq translates the bodies of
+   hashingAlgo.CalculateWithContext and fileHashing.calculateFile on every run (coq/C20/Gen.v), and its
+   interpreter over the absorbing machine.  The property theorems are stated about the GENERATED bodies. *)
+Inductive stmt :=
+  | SNilCheck        (* if r == nil { err = ErrUndefined; return }     (readers of the model are non-nil) *)
+  | SReset           (* h.Hash.Reset() *)
+  | SCopy            (* _, err = safeio.CopyDataWithContext(ctx, r, h.Hash) *)
+  | SReturnIfErr     (* if err != nil { return } *)
+  | SSumHex          (* hashN = hex.EncodeToString(h.Hash.Sum(nil)) *)
+  | SReturn.         (* return  (named results) *)
+
+(* st: absorbed bytes of the hash object; err: the named result err is non-nil; res: the named result hashN *)
+Fixpoint exec (body : list stmt) (st : list Z) (err : bool) (res : option (list Z)) (s : list ev)
+  : option (list Z) * list Z :=
+  match body with
+  | [] => ((if err then None else res), st)
+  | SNilCheck :: b => exec b st err res s
+  | SReset :: b => exec b [] err res s
+  | SCopy :: b => let '(a, o) := feed st s in
+                  exec b a (match o with Success => false | _ => true end) res s
+  | SReturnIfErr :: b => if err then (None, st) else exec b st err res s
+  | SSumHex :: b => exec b st err (Some st) s
+  | SReturn :: _ => ((if err then None else res), st)
+  end.
+
+Definition gen_calc (body : list stmt) (st : list Z) (s : list ev) : option (list Z) * list Z :=
+  exec body st false None s.
+
+Fixpoint run_hist_body (body : list stmt) (st : list Z) (hist : list (list ev)) : list Z :=
+  match hist with
+  | [] => st
+  | s :: r => run_hist_body body (snd (gen_calc body st s)) r
+  end.
+
+Inductive fstmt :=
+  | FIsFile                        (* ok, err := fs.IsFile(path) *)
+  | FRejectNonFile                 (* if err != nil || !ok { ... return "", err } *)
+  | FOpen                          (* f, err := fs.GenericOpen(path) *)
+  | FReturnIfErr                   (* if err != nil { return "", err } *)
+  | FDeferCloseIgnoringItsError    (* defer func() { _ = f.Close() }() *)
+  | FHashOpenedHandle.             (* return hashFunc(h, f)   with hashFunc = Calculate[WithContext] of the same object *)
+
+(* isfile: result of the IsFile test once made; handle: content readable through the opened handle *)
+Fixpoint fexec (fbody : list fstmt) (body : list stmt) (st : list Z) (n : fnode) (chunking : list Z -> list ev)
+         (isfile : option bool) (handle : option (list Z)) : option (list Z) * list Z :=
+  match fbody with
+  | [] => (None, st)
+  | FIsFile :: b => fexec b body st n chunking (Some (match n with FFile _ => true | _ => false end)) handle
+  | FRejectNonFile :: b => match isfile with
+                           | Some true => fexec b body st n chunking isfile handle
+                           | _ => (None, st)
+                           end
+  | FOpen :: b => fexec b body st n chunking isfile (match n with FFile c => Some c | _ => None end)
+  | FReturnIfErr :: b => match handle with
+                         | Some _ => fexec b body st n chunking isfile handle
+                         | None => (None, st)
+                         end
+  | FDeferCloseIgnoringItsError :: b => fexec b body st n chunking isfile handle
+  | FHashOpenedHandle :: _ => match handle with
+                              | Some c => gen_calc body st (chunking c)
+                              | None => (None, st)
+                              end
+  end.
+
+Definition gen_file_calc (fbody : list fstmt) (body : list stmt) st n chunking := fexec fbody body st n chunking None None.
+
 (* --- correspondence ---
    The harness runs a history and then a final successful calculation on the real hasher (six algorithms) and
    searches the smallest L such that  observed digest = reference digest (last L bytes ever delivered before ++ content).
